@@ -4,10 +4,11 @@
    Model/Codec.v (splitIntoChunks), Model/Middleware.v + Model/World.v
    (honest-browser histories); monitor: Spec/WorldSpec.c07_browser (the same
    boolean the correspondence check applies to the Go implementation);
-   proofs: Proofs/SessionProofs.v, Proofs/W_Cookies.v, Proofs/W_C07.v. *)
+   proofs: Proofs/SessionProofs.v, Proofs/W_Cookies.v, Proofs/W_C07.v, Proofs/W_C07E.v
+   (read-back step, monitor Spec/WorldSpec.c07_e2e_step). *)
 From VF Require Import Base.Prelude Model.Cache Model.Session Model.Codec Model.Middleware Model.World
      Corr.WorldCorr Spec.WorldSpec.
-From VF Require Import Proofs.WorldBase Proofs.SessionProofs Proofs.W_Cookies Proofs.W_C07.
+From VF Require Import Proofs.WorldBase Proofs.SessionProofs Proofs.W_Cookies Proofs.W_C07 Proofs.W_C07E Proofs.W_Example.
 
 (* ---- byte level: splitIntoChunks (justifies the symbolic `whole t` of the model) *)
 
@@ -133,4 +134,36 @@ Example C07_refuted_without_deletion :
   let sd2 := set_access ex_nc 2%N (load k 0%Z j1) in
   get_access ex_nc (load k 0%Z (apply_cookies k j1 (save_cookies sd2))) = TTok 2%N
   /\ get_access ex_nc (load k 0%Z (apply_cookies k j1 (save_cookies_nodel sd2))) = TJunk.
+Proof. vm_compute. repeat split. Qed.
+
+(* ---- read-back, per step: what a request reads back from its cookies is what they hold.
+   For every environment, configuration, instance state (ready or not), instant, request,
+   random values and provider answer -- no premise at all -- the response of serve satisfies
+   Spec/WorldSpec.c07_e2e_step: a gated request forwarded with no provider call hands
+   downstream, under the ID-token header (code 3), exactly the ID token stored in the request's
+   cookies (which is a token, not junk and not empty); and when the provider calls are exactly
+   one refresh grant, the refresh token presented is exactly the one stored in the request's
+   cookies.  With C07_history (the cookies hold what was last written) this closes the loop. *)
+Theorem C07_read_back_step : forall (E : env) (cfg : config) (st : inst) (now : time) (rq : request)
+    (rnd : istr * istr * istr) (ans : option answer),
+  c07_e2e_step E cfg now rq (snd (serve E cfg st now rq rnd ans)) = true.
+Proof. exact c07_e2e_serve. Qed.
+Print Assumptions C07_read_back_step.
+
+(* on the example deployment of Proofs/W_Example.v: the logged-in browser's request to the
+   protected path is gated and forwarded with no provider call, header 3 carries the stored ID
+   token 10, and the monitor holds; the same response with another token under header 3 (or
+   with header 3 emptied) is rejected by the monitor, so the clause is not vacuous *)
+Example C07_read_back_nonvacuous :
+  let rq := ex_req 5 ex_jar_auth in
+  let r := snd (serve exE excfg ex_inst ex_now rq ex_rnd None) in
+  gated exE excfg rq = true
+  /\ r_calls r = []
+  /\ r_fwd r = Some [(1, HStr 11); (2, HStr 11); (3, HStr 10); (6, HStr 5); (1007, HStr 0)]%N
+  /\ session_token exE excfg ex_now rq = TTok 10%N
+  /\ c07_e2e_step exE excfg ex_now rq r = true
+  /\ c07_e2e_step exE excfg ex_now rq
+       (mkResp 200 None [] BNone (Some [(1, HStr 11); (2, HStr 11); (3, HStr 16)]%N) false [] []) = false
+  /\ c07_e2e_step exE excfg ex_now rq
+       (mkResp 200 None [] BNone (Some [(1, HStr 11); (2, HStr 11); (3, HStr 0)]%N) false [] []) = false.
 Proof. vm_compute. repeat split. Qed.
